@@ -29,7 +29,10 @@ def descendants(facts, body):
                     ch = facts.bodies.get(s_["rv"]["def"])
                     if ch is not None and not any(ch.def_ == k.def_ for k in kids):
                         kids.append(ch)
+        absorbed = getattr(facts, "absorbed", None)
         for ch in kids:
+            if absorbed is not None and ch.kind == "closure" and absorbed(ch):
+                continue        # a closure whose every invocation was inlined is represented by its copies
             if ch.crate is x.crate and not any(ch.def_ == o.def_ for o in out):
                 out.append(ch)
                 st.append(ch)
@@ -155,8 +158,143 @@ def dominating_edges(tr, body, site_bb, _depth=0):
                 if not any(x["bb"] == k[0] and x["label"] == k[1] for x in out + extra):
                     extra.append(dict(v, via="const-phi@bb%d" % sw.bb))
         out = out + extra
+    # the same for a match on an enum local every definition of which builds a known variant ("the decision carried as
+    # data": `let role = match join() { Some(rx) => Role::Waiter(rx), None => Role::Leader }; ..; match role { .. }`,
+    # or a helper returning Ok(..) / Err(..) inlined at its call): on the edge of variant V the value was built at one
+    # of the V sites, so the guards common to all of those sites were passed on the way here
+    if _depth < 3:
+        extra = []
+        for e in list(out):
+            if e["kind"] != "enum" or "via" in e:
+                continue
+            sw = e["sw"]
+            if sw.place is None:
+                continue
+            src_body = body
+            if sw.place["p"]:
+                # the decision was taken in the function that built this closure / async block and captured by value
+                # (`let on_expiry = if cancel { DropInner } else { DetachInner }; async move { match on_expiry { .. } }`)
+                up = _upvar_variant_sites(tr, body, sw)
+                if up is None:
+                    continue
+                src_body, sites = up
+            else:
+                sites = _variant_sites(tr, body, g, sw.place["l"], sw.defloc)
+            if not sites:
+                continue
+            srcs = [bb_ for (bb_, v_) in sites if v_ == e["label"]]
+            if not srcs or len({v_ for (_b, v_) in sites}) < 2:
+                continue
+            common = None
+            for sb_ in srcs:
+                es = dominating_edges(tr, src_body, sb_, _depth + 1)
+                if src_body is not body:
+                    # seen from here, the captured decision is established by taking this switch's edge
+                    es = [dict(x, bb=sw.bb, sw=sw, label=x["label"], foreign=src_body.def_, fkey=(x["bb"], x["label"])) for x in es]
+                    keys = {x["fkey"]: x for x in es}
+                    common = keys if common is None else {k: v for k, v in common.items() if k in keys}
+                    continue
+                keys = {(x["bb"], x["label"]): x for x in es}
+                common = keys if common is None else {k: v for k, v in common.items() if k in keys}
+            for k, v in (common or {}).items():
+                if v.get("foreign") or not any(x["bb"] == k[0] and x["label"] == k[1] for x in out + extra):
+                    extra.append(dict(v, via="variant-phi@bb%d" % sw.bb))
+        out = out + extra
     body._cache[ck] = out
     return out
+
+
+def _upvar_variant_sites(tr, body, sw):
+    """(parent body, [(bb, variant)]) when the switch tests a by-value capture of this closure / coroutine whose value, in
+    the one function that builds the closure, is built as a known variant on every path"""
+    if body.kind not in ("closure", "coroutine") or sw.place["l"] != 1:
+        return None
+    proj = [e_ for e_ in sw.place["p"] if e_ != "*"]
+    if len(proj) != 1 or not isinstance(proj[0], dict) or "f" not in proj[0]:
+        return None
+    k = proj[0]["f"]
+    sites = tr.aggsites((body.crate.name, body.def_))
+    if len(sites) != 1:
+        return None
+    (pb, bb, idx, rv) = sites[0]
+    if k >= len(rv["ops"]):
+        return None
+    src = rv["ops"][k].get("move") or rv["ops"][k].get("copy")
+    if src is None or src["p"]:
+        return None
+    vs = _variant_sites(tr, pb, graph(pb), src["l"], (bb, idx))
+    return (pb, vs) if vs else None
+
+
+_TRY_LABELS = {"Continue": ("Ok", "Some"), "Break": ("Err", "None")}
+
+
+def _variant_sites(tr, body, g, local, loc):
+    """[(bb, label as seen by the switch)] when every definition reaching the switched-on local builds a known variant
+    (directly, through local copies, or through `Try::branch` of such a value); None otherwise"""
+    def sites_of(local, loc, depth):
+        if depth > 5:
+            return None
+        out = []
+        ds = g.reaching(local, loc)
+        if not ds:
+            return None
+        for d in ds:
+            (_l, bb, idx, kind, proj, data, _n) = d
+            if proj:
+                return None
+            if kind == "assign" and data["k"] == "agg" and data.get("ak") == "adt" and data.get("variant") is not None:
+                out.append((bb, data["variant"]))
+            elif kind == "assign" and data["k"] == "use":
+                src = data["op"].get("move") or data["op"].get("copy")
+                if src is None or src["p"]:
+                    return None
+                sub = sites_of(src["l"], (bb, idx), depth + 1)
+                if sub is None:
+                    return None
+                out += sub
+            elif kind == "call":
+                t = g.term(bb)
+                fn = t["func"].get("const", {}).get("fn") if isinstance(t.get("func"), dict) else None
+                if not fn or fn.get("def") != TRY_BRANCH or not t["args"]:
+                    return None
+                src = t["args"][0].get("move") or t["args"][0].get("copy")
+                if src is None or src["p"]:
+                    return None
+                sub = sites_of(src["l"], (bb, len(g.stmts(bb))), depth + 1)
+                if sub is None:
+                    return None
+                for (b2, v2) in sub:
+                    lab = [k for k, vs in _TRY_LABELS.items() if v2 in vs]
+                    if not lab:
+                        return None
+                    out.append((b2, lab[0]))
+            else:
+                return None
+        return out
+    return sites_of(local, loc, 0)
+
+
+def enum_edges(tr, body, pred):
+    """[(bb, target, label)] of every enum-switch edge in `body` whose scrutinee node satisfies pred(node)"""
+    g = graph(body)
+    out = []
+    for bb in range(g.n):
+        sw = g.switch(bb)
+        if sw is None or sw.kind != "enum" or not g.live(bb):
+            continue
+        node = peel(tr.expand(tr.place(body, sw.place, sw.defloc)))
+        if not pred(node):
+            continue
+        for nm, tgt in sw.variants.items():
+            out.append((bb, tgt, nm))
+    return out
+
+
+def only_via(g, site_bb, edges, kinds=(N,)):
+    """every feasible path from the entry to site_bb takes one of `edges` [(bb, target)] (path form of edge dominance:
+    it survives the join an inlined helper's return introduces, because the feasibility tags carry the outcome over it)"""
+    return bool(edges) and site_bb not in g.reach([0], kinds=kinds, avoid_edges=[(a, b) for (a, b) in edges])
 
 
 TRY_BRANCH = "core::ops::try_trait::Try::branch"
@@ -173,7 +311,10 @@ def derives(tr, node, V, depth=0, variants=("Ready", "Ok", "Continue", "Some")):
         return True
     k = node[0]
     if k == "phi":
-        return bool(node[1]) and all(derives(tr, x, V, depth + 1, variants) for x in node[1])
+        # an alternative built as a failure variant (`Err(..)`, `None`, ..) cannot be where a success payload comes from:
+        # `r.map_err(f)` written out is `match r { Ok(v) => Ok(v), Err(e) => Err(f(e)) }`
+        alts = [x for x in node[1] if not _is_failure_agg(tr, x)] or list(node[1])
+        return bool(alts) and all(derives(tr, x, V, depth + 1, variants) for x in alts)
     if k in ("ref", "deref"):
         return derives(tr, node[1], V, depth + 1, variants)
     if k == "cast":
@@ -196,6 +337,15 @@ def derives(tr, node, V, depth=0, variants=("Ready", "Ok", "Continue", "Some")):
     return False
 
 
+def _is_failure_agg(tr, node):
+    node = peel(node)
+    if node[0] != "agg":
+        return False
+    _b, rv = tr.agg_of(node)
+    return rv.get("ak") == "adt" and rv.get("variant") in ("Err", "None", "Break", "Pending") and \
+        (rv.get("def") or "").startswith(("core::result::Result", "core::option::Option", "core::ops::control_flow::ControlFlow", "core::task::poll::Poll"))
+
+
 def await_node(body, a):
     """the node standing for `x.await`'s poll result"""
     return ("call", body.crate.name, body.def_, a.poll_bb)
@@ -208,6 +358,40 @@ def awaited_call(tr, body, a):
     if n[0] == "call":
         return tr.call_of(n)
     return None
+
+
+def awaited_calls(tr, body, a):
+    """Call objects the awaited expression may be (one per alternative when the future is chosen by a branch, e.g.
+    `match deadline { Some(d) => timeout_at(d, f), None => timeout(limit, f) }`); [] when an alternative is not a call result"""
+    g = graph(body)
+    n = tr.expand(tr.operand(body, a.awaitee, (a.into_bb, len(g.stmts(a.into_bb)))))
+    out = []
+    for lf in leaves(n):
+        lf = peel(lf)
+        if lf[0] != "call":
+            return []
+        out.append(tr.call_of(lf))
+    return out
+
+
+def deadline_durations(tr, node):
+    """node is an Instant deadline `now() + d` / `now().checked_add(d)` -> Some(deadline) on every alternative:
+    the list of the d nodes; None otherwise"""
+    out = []
+    for lf in leaves(tr.expand(node, upvars=True)):
+        lf = peel(lf)
+        while lf[0] in ("field", "downcast"):
+            lf = peel(lf[1])
+        if lf[0] != "call":
+            return None
+        c2 = tr.call_of(lf)
+        if c2.name not in ("checked_add", "add") or len(c2.args) != 2:
+            return None
+        a0 = tr.expand(tr.operand(c2.g.b, c2.args[0], c2.loc), upvars=True)
+        if not calls_in(tr, a0, lambda x: x.name == "now"):
+            return None
+        out.append(tr.expand(tr.operand(c2.g.b, c2.args[1], c2.loc), upvars=True))
+    return out or None
 
 
 def zero_duration_on(tr, edges, V):
@@ -243,7 +427,7 @@ def _is_zero_const(n):
     return n[0] == "const" and (n[3] == "0" or (n[1] or "").startswith("0_"))
 
 
-def normalise_cmp(tr, node):
+def normalise_cmp(tr, node, _depth=0):
     """boolean node -> (op, A, B) with op in Lt/Le/Gt/Ge/Eq/Ne, looking through PartialOrd/PartialEq
     method calls (Duration, Instant, ...) and Not; returns None if not a comparison"""
     neg = False
@@ -261,6 +445,17 @@ def normalise_cmp(tr, node):
             op = m
             a = peel(tr.expand(tr.operand(c.g.b, c.args[0], c.loc)))
             b = peel(tr.expand(tr.operand(c.g.b, c.args[1], c.loc)))
+    if op is None and node[0] == "call" and _depth < 2:
+        # a workspace-local bool helper whose only returned value is a comparison (`fn is_full(&self) -> bool
+        # { self.len() >= self.capacity }`): the comparison, with the helper's parameters standing for the arguments
+        hb = tr.local_sync_callee(node)
+        if hb is not None and hb.local_ty(0)["s"] == "bool":
+            rets = ret_assigns(tr, hb)
+            if len(rets) == 1:
+                with tr.bound(hb, node):
+                    inner = normalise_cmp(tr, tr.expand(rets[0][2]), _depth + 1)
+                if inner is not None:
+                    op, a, b = inner
     if op is None:
         return None
     if neg:
@@ -495,7 +690,10 @@ def field_writes(facts, adt_def, field):
     idx = getattr(facts, "_fw_index", None)
     if idx is None:
         idx = {}
+        absorbed = getattr(facts, "absorbed", None)
         for b in facts.all_bodies():
+            if absorbed is not None and absorbed(b):
+                continue        # a helper inlined at every call site is represented by its copies
             for i, blk in enumerate(b.blocks):
                 for j, s in enumerate(blk["stmts"]):
                     if s["k"] != "assign":
